@@ -89,8 +89,8 @@ def vcut(run, F):
                 gg, en_a = dtree.guards_at(fn.hir, asg[0], env0)
                 conds = dtree.simplify(frozenset(c for c in gg if c not in gc and c != 'VALID(a0)')) or frozenset()
                 tgt, val = dtree.canon(asg[0]['ch'][0], en_a), dtree.canon(asg[0]['ch'][1], en_a)
-                # loop pattern (bound, label): m0 = interval, m1 = label
-                want = {'(m0.0 < a0)', '(a0 <= m0.1)'} if is_right else {'(m0.0 <= a0)', '(a0 < m0.1)'}
+                # loop pattern (bound, label): b0 = interval, b1 = label
+                want = {'(b0.0 < a0)', '(a0 <= b0.1)'} if is_right else {'(b0.0 <= a0)', '(a0 < b0.1)'}
                 # first match wins: a `break` follows the assignment in the same block
                 brk = any(x.get('k') == 'Block' and any(peel(st.get('e', {})) is asg[0] for st in x.get('stmts', []))
                           and any(y.get('k') == 'Break' for st in x.get('stmts', []) for y in walk(st.get('e', {}))
@@ -98,7 +98,7 @@ def vcut(run, F):
                                         and any(peel(st.get('e', {})) is asg[0] for st in x.get('stmts', [])))
                           for x in walk(lp['ch'][1]))
                 shape = re.fullmatch(r'(\w+)\.titer\(\)\.tuple_windows\(\)\.zip\(labels\.titer\(\)\)', it)
-                okc = set(conds) == want and tgt == outv and val == 'Some(m1)' and brk and bool(shape)
+                okc = set(conds) == want and tgt == outv and val == 'Some(b1)' and brk and bool(shape)
                 det = 'test %s (expected %s); `%s = %s`%s; over `%s`' % (
                     sorted(conds), sorted(want), tgt, val, ' then break' if brk else ' WITHOUT break', it[:70])
         run.ob('CUT.closed', fn, '%s-closed interval test' % arm, okc, loc(cl), det)
